@@ -94,8 +94,8 @@ def build(scratch: str, entries: dict[str, Any]) -> None:
             with open(full, "wb") as f:
                 f.write(b"x" * int(ent["f"]))
         elif "txt" in ent:
-            with open(full, "w", encoding="utf-8") as f:
-                f.write(ent["txt"])
+            with open(full, "wb") as f:
+                f.write((ent.get("prefix", "") + ent["txt"]).encode(ent.get("enc", "utf-8"), "replace"))
         elif "l" in ent:
             os.symlink(ent["l"], full)
         elif "fifo" in ent:
